@@ -312,6 +312,9 @@ def ising_XX(
     phi = instruction.params["phi"]
     modes = instruction.modes
 
+    if state._config.validate and not are_modes_consecutive(modes):
+        raise InvalidParameter(f"Specified modes must be consecutive: modes={modes}")
+
     d = state._d
     cutoff = state._config.cutoff
 
